@@ -46,6 +46,10 @@ CHECKS["C10"] = dict(level="exploration", ref="DESIGN.md §5 C10",
    technique="generated IH5MF histories with manifest-extension commits; invariant after every commit (manifest digest/uuid vs user block, skeleton vs reference tree incl. last-written patch indices, extension inheritance); differential stub-vs-direct application of generated existence-based updates",
    text="Generated search: manifest invariants are checked after every commit of every history; each case then builds a stub, applies the same generated update via stub and directly, and requires per-operation parity, acceptance of the stub-made patch by the real files and equality with the reference result. Bounded history/update length; sampling.",
    note=TB)
+CHECKS["C12"] = dict(level="exploration", ref="DESIGN.md §5 C12",
+   technique="Hypothesis-generated schema classes (real metaclass) from the documented field-type grammar + all installed schema plugins (versioned, unversioned and [] access); hint-directed constructive instance recipes; round-trip oracle over bytes/JSON/YAML/json_dict, second-trip stability, byte identity for set-free instances, constant-field presence and input-ignorance against the class description",
+   text="Generated search over classes and instances; the oracle is the round-trip identity itself plus independently known constants. Unions are restricted to members with disjoint serialised forms (others are order-dependent by construction). Bounded nesting depth 3; sampling.",
+   note=TB + "; pydantic v1 / pydantic_yaml / isodate / pint are part of the code under test's dependencies and trusted for construction-time validation")
 NOT_YET = {}
 def main():
     props = [json.loads(l) for l in open(os.path.join(HERE, "properties.jsonl"))]
